@@ -188,6 +188,14 @@ def runtime_tables(repo, paths):
     f = os.path.realpath(fusion_engine_client.__file__)
     if not f.startswith(os.path.realpath(repo) + os.sep):
         raise TranslateError(f, 'fusion_engine_client imported from outside %s' % repo)
+    # The registry is read as a user gets it: after a plain import of the package, before any sub-module is imported by
+    # name (importing a sub-module registers its classes as a side effect and would hide a missing registration).
+    msgs = importlib.import_module(PKG)
+    defs = importlib.import_module(PKG + '.defs')
+    if msgs.message_type_to_class is not defs.MessagePayload.message_type_to_class:
+        raise TranslateError('messages/__init__.py', 'message_type_to_class is not MessagePayload.message_type_to_class')
+    registry = [(int(t), getattr(t, 'name', None), c.__module__, c.__qualname__, c.get_version())
+                for t, c in defs.MessagePayload.message_type_to_class.items()]
     for p in paths:
         b = os.path.basename(p)[:-3]
         importlib.import_module(PKG if b == '__init__' else PKG + '.' + b)
@@ -221,11 +229,6 @@ def runtime_tables(repo, paths):
                         'type_name': getattr(t, 'name', None), 'type': None if t is None else int(t),
                         'version': None if v is None else int(v),
                         'own_type': 'MESSAGE_TYPE' in c.__dict__, 'own_version': 'MESSAGE_VERSION' in c.__dict__})
-    msgs = importlib.import_module(PKG)
-    if msgs.message_type_to_class is not defs.MessagePayload.message_type_to_class:
-        raise TranslateError('messages/__init__.py', 'message_type_to_class is not MessagePayload.message_type_to_class')
-    registry = [(int(t), getattr(t, 'name', None), c.__module__, c.__qualname__, c.get_version())
-                for t, c in defs.MessagePayload.message_type_to_class.items()]
     return enums, cls_sets, payload, registry
 
 
